@@ -107,8 +107,8 @@ ROWS = [
     ("bfs_equal_size_partitions", "components/weak_connectivity.rs", "Components.bfs_equal_size_partitions", "NEW C20_total_bfs_equal_size_partitions <- C10_equal_size_total_wf (k >= 1, C20's own quantifier)", "no channel: Ok", "FULL", "k = 0 is outside C20's quantifier"),
     ("is_partition", "community/partitions.rs", "Partition.is_partition", "NEW C20_total_is_partition <- is_partition_WF (ANY family of lists)", "bool", "FULL", "-"),
     ("modularity", "community/partitions.rs", "Partition.modularity", "NEW C20_modularity_outcomes (ANY weights: Ok / NotAPartition / the one model-domain site), NEW C20_total_modularity_partial (no negative weight: Ok / NotAPartition) <- C12 state theorems", "Ok / NotAPartition", "PART", "weighted = true with a negative weight such that the total weight is 0 while a community term is not: the code computes with inf, the exact model reports a model-domain site"),
-    ("louvain_partitions", "community/louvain.rs", "Louvain.louvain_partitions (level fuel, sweep fuel, shuffle table = arguments of the model)", "NEW C20_total_louvain_partial <- NEW Proofs/LouvainTotal.v (convert_graph, generate_graph, modularity on level graphs, level loop, convert_back never reach a Panic site) + C13_never_out_of_fuel machinery (level_total, LInv_step)", "Ok (the Result is never Err), never hangs", "PART", "hypotheses C20 does not grant: weighted = true needs every edge weighted and no negative weight (NaN weight / total weight 0 with non-zero terms: model-domain sites; other negative weights return), resolution >= 0 (a negative one returns in the evaluated example). Fuel: level > N, sweep >= N^N; shuffle oracle well formed"),
-    ("louvain_communities", "community/louvain.rs", "Louvain.louvain_communities", "NEW C20_total_louvain_partial (returns the last level: never NoPartitions)", "Ok", "PART", "as louvain_partitions"),
+    ("louvain_partitions", "community/louvain.rs", "Louvain.louvain_partitions (level fuel, sweep fuel, shuffle table = arguments of the model; first statement = the guard of F23)", "C20_louvain_negative_weights_rejected (EVERY state, fuel, table: weighted and a weight < 0 -> InvalidArgument); C20_total_louvain_partial (WF g; all edges weighted when weighted; resolution >= 0: InvalidArgument if a weight is negative, else Ok) <- Proofs/LouvainTotal.v (convert_graph, generate_graph, modularity on level graphs, level loop, convert_back never reach a Panic site) + C13_never_out_of_fuel machinery (level_total, LInv_step); C20_louvain_invalid_argument_iff; C20_total_louvain_nonnegative_weights (previous statement)", "Ok / InvalidArgument (negative weight, weighted), never hangs", "PART", "hypotheses C20 does not grant: weighted = true needs every edge weighted (a NaN weight passes the guard as in the code, then a model-domain site: no NaN arithmetic in the exact model), resolution >= 0 (a negative one returns in the evaluated example). Negative weights are no longer excluded (guard). Fuel: level > N, sweep >= N^N; shuffle oracle well formed"),
+    ("louvain_communities", "community/louvain.rs", "Louvain.louvain_communities", "C20_louvain_negative_weights_rejected, C20_total_louvain_partial (InvalidArgument inherited from louvain_partitions; otherwise returns the last level: never NoPartitions)", "Ok / InvalidArgument", "PART", "as louvain_partitions"),
     ("complete_graph", "generators/classic.rs", "Classic.complete_graph", "NEW C20_total_complete_graph <- C16_generators_wf_total (EVERY i32 n)", "no channel: Ok, result WF", "FULL", "-"),
     ("karate_club_graph", "generators/social.rs", "Classic.karate_club_graph on the re-extracted literal", "NEW C20_total_karate_club_graph <- C16_karate_graph", "Ok, result WF", "FULL", "-"),
     ("fast_gnp_random_graph", "generators/random.rs", "Gnp.fast_gnp_random_graph (the seed's skips = the stream gaps, its length = the fuel)", "NEW C20_total_fast_gnp_random_graph <- C16_rejects_p, gnp_pairs_total, gnp_graph_ok + n < 0 (EVERY i32 n, EVERY f64 p)", "Ok / InvalidArgument, no Panic site; Ok once the stream has gnp_slots + 1 entries", "FULL", "gaps >= 0 is a property of the oracle (quotient of two non-positive logarithms)"),
